@@ -31,6 +31,49 @@ Proof. vm_compute. reflexivity. Qed.
 Lemma gen_gc_sites : relay_gc_sites = rs_gc_rows.
 Proof. vm_compute. reflexivity. Qed.
 
+Lemma gen_deletecall_body : relay_deletecall_body = rs_dcbody_rows.
+Proof. vm_compute. reflexivity. Qed.
+Lemma gen_finish_sites : relay_finish_sites = rs_finish_rows.
+Proof. vm_compute. reflexivity. Qed.
+Lemma gen_delete_sites : relay_delete_sites = rs_delete_rows.
+Proof. vm_compute. reflexivity. Qed.
+
+(* the model's relayItems.deleteCall, case by case as its rows read *)
+Lemma items_delete_call_rows : forall (st : state) (t : key) (lk : Z * Z),
+  match lookup key_eqb t (items st) with
+  | None => items_delete_call st t lk = (st, None)
+  | Some it =>
+      if (it_dest it =? fst lk) && (it_remap it =? snd lk)
+      then items_delete_call st t lk =
+             (timer_release (set_items st (remove key_eqb t (items st))) (it_tm it), Some (it, negb (it_tomb it)))
+      else items_delete_call st t lk = (st, None)
+  end.
+Proof.
+  intros st t lk. unfold items_delete_call, items_delete. destruct (lookup key_eqb t (items st)) as [it|] eqn:E; [|reflexivity].
+  destruct ((it_dest it =? fst lk) && (it_remap it =? snd lk)); reflexivity.
+Qed.
+
+(* where the model's finishes get the looked-up identity from: Receive's from the item IRcvChk
+   holds, handleNonCallReq's from the caller's own item (the frame went to its destination relayer
+   under its destination-side id) *)
+Lemma finish_identity_model : forall cf st room,
+  (forall r rk it s, it_tomb it || (fin_of (r_f r) && negb s) = false ->
+     exists cbs, snd (exec cf st (IRcvChk r rk (Some (it, s))) room) = cbs ++ [IRcvEnq r rk (it_dest it, it_remap it)]) /\
+  (forall r rk lk, fin_of (r_f r) = true ->
+     snd (exec cf st (IRcvEnq r rk lk) true) = IDelete rk lk :: after_sent r) /\
+  (forall r, fin_of (r_f r) = true -> exists tl, after_sent r = IDelete (r_own r) (r_d r, f_id (r_f r)) :: tl) /\
+  (forall k f ft own it s, it_tomb it || (fin_of f && negb s) = false ->
+     exists cbs r, snd (exec cf st (INcChk k f ft own (Some (it, s))) room) = cbs ++ [IRcvGet r] /\
+       r_own r = own /\ (r_d r, f_id (r_f r)) = (it_dest it, it_remap it)).
+Proof.
+  intros cf st room. split; [|split; [|split]].
+  - intros r rk it s H. cbn [exec]. rewrite H. cbn [snd]. eexists. reflexivity.
+  - intros r rk lk H. cbn [exec snd]. rewrite H. reflexivity.
+  - intros r H. unfold after_sent. rewrite H. eexists. reflexivity.
+  - intros k f ft own it s H. cbn [exec]. rewrite H. cbn [snd].
+    eexists (_ ++ [_]). eexists. split; [rewrite <- app_assoc; reflexivity|]. split; reflexivity.
+Qed.
+
 (* the model's relayItems.Get and relayItems.deleteTomb, case by case as the rows read *)
 Lemma items_get_cases : forall (st : state) (t : key) (stop : bool),
   match lookup key_eqb t (items st) with
@@ -174,9 +217,9 @@ Theorem dec_sites_model : forall cf st room,
                | Some (_, true) => count_dec (key_conn t) (snd (exec cf st (IEntomb t s) room)) = 1
                | _ => snd (exec cf st (IEntomb t s) room) = []
                end) /\
-  (forall t, match snd (items_delete st t) with
-             | Some (_, true) => count_dec (key_conn t) (snd (exec cf st (IDelete t) room)) = 1
-             | _ => snd (exec cf st (IDelete t) room) = []
+  (forall t lk, match snd (items_delete_call st t lk) with
+             | Some (_, true) => count_dec (key_conn t) (snd (exec cf st (IDelete t lk) room)) = 1
+             | _ => snd (exec cf st (IDelete t lk) room) = []
              end).
 Proof.
   intros cf st room. split; [|split; [|split]].
@@ -198,7 +241,7 @@ Proof.
       * destruct (reason =? reason_source_slow); [contradiction|]. destruct Hj as [<-|[]]. exact I.
       * destruct Hj as [<-|[<-|[]]]; exact I.
     + destruct Hj as [<-|[<-|[<-|[]]]]; exact I.
-  - intro t. cbn [exec]. destruct (items_delete st t) as [st' g]. cbn [snd].
+  - intros t lk. cbn [exec]. destruct (items_delete_call st t lk) as [st' g]. cbn [snd].
     destruct g as [[it [|]]|]; try reflexivity. cbn [snd].
     destruct (it_orig it); cbn; rewrite Z.eqb_refl; reflexivity.
 Qed.
